@@ -17,11 +17,40 @@ type Entry struct {
 	Name string `json:"name"`
 }
 
+var suffix = ""
+
 func item(r *mon.Run, name string, ok bool, detail string) {
+	name += suffix
 	r.Eval([]byte(name))
 	if !ok {
 		r.Violate("constant/"+name, detail, Entry{name})
 	}
+}
+
+// abuse calls the accessors of the precomputed objects and overwrites whatever they return.
+func abuse() {
+	p := curve.ED25519_BASEPOINT_TABLE.Basepoint()
+	p.Neg(p)
+	p.Add(p, p)
+	p.Identity()
+	rp := curve.RISTRETTO_BASEPOINT_TABLE.Basepoint()
+	rp.Neg(rp)
+	rp.Identity()
+	t := curve.NewEdwardsBasepointTable(curve.ED25519_BASEPOINT_POINT).Basepoint()
+	t.Identity()
+	x := curve.NewExpandedEdwardsPoint(curve.ED25519_BASEPOINT_POINT).Point()
+	x.Neg(x)
+	rx := curve.NewExpandedRistrettoPoint(curve.RISTRETTO_BASEPOINT_POINT).Point()
+	rx.Neg(rx)
+	one := scalar.One()
+	one.Add(one, one)
+	// results computed from the constants must not alias them either
+	q := curve.NewEdwardsPoint().MulBasepoint(curve.ED25519_BASEPOINT_TABLE, scalar.One())
+	q.Neg(q)
+	s := curve.NewEdwardsPoint().Sum([]*curve.EdwardsPoint{curve.ED25519_BASEPOINT_POINT})
+	s.Neg(s)
+	u := curve.NewEdwardsPoint().Set(curve.EIGHT_TORSION[1])
+	u.Add(u, u)
 }
 
 func encPt(p *curve.EdwardsPoint) []byte { b, _ := p.MarshalBinary(); return b }
